@@ -517,10 +517,7 @@ fn cmd_run(prop: Prop, tier: Tier, opts: &std::collections::HashMap<String, Stri
     code
 }
 
-fn died_abnormally(st: &std::process::ExitStatus) -> bool {
-    use std::os::unix::process::ExitStatusExt;
-    st.signal().is_some() || !matches!(st.code(), Some(0) | Some(1) | Some(2))
-}
+use runner::died_abnormally;
 
 fn panic_lines(stderr: &str) -> String {
     let mut out = Vec::new();
@@ -632,7 +629,11 @@ fn cmd_supervise(prop: Prop, tier: Tier, opts: &std::collections::HashMap<String
             violation: model::Violation::new("process-abort", &[prop], detail.clone()),
             trace_hash: 0,
         };
-        let path = write_replay(prop, tier, base_seed, &found, false);
+        // Minimise with child processes (a candidate is kept if it kills its process again).
+        let min = shrink::minimise(cfg.harness, prop, tier, &found, 250);
+        let minimised = min.is_some();
+        let found = min.unwrap_or(found);
+        let path = write_replay(prop, tier, base_seed, &found, minimised);
         println!("violation rule=process-abort run_index={i} run_seed={seed}");
         println!("detail: {detail}");
         println!("VIOLATION property={} replay={}", prop.name(), path);
